@@ -149,8 +149,14 @@ class FnView:
 
         def root_var(n):
             n = self.strip(n)
-            while n is not None and n.get('kind') in ('MemberExpr', 'CXXDependentScopeMemberExpr', 'ArraySubscriptExpr'):
+            while n is not None and n.get('kind') in ('MemberExpr', 'CXXDependentScopeMemberExpr', 'ArraySubscriptExpr',
+                                                      'CXXOperatorCallExpr'):
                 ks = tu.kids(n)
+                if n.get('kind') == 'CXXOperatorCallExpr':
+                    if self._opname(n) != '[]' or len(ks) < 2:
+                        return None
+                    n = self.strip(ks[1])
+                    continue
                 if not ks:
                     return None
                 n = self.strip(ks[0])
@@ -183,7 +189,17 @@ class FnView:
                     if ptypes is None:
                         fty = tu.sd(n).get('fty')
                         if fty and '(' in fty:
-                            ptypes = _split_top(fty[fty.index('(') + 1:fty.rindex(')')])
+                            a0 = fty.index('(')
+                            depth, b0 = 0, -1
+                            for j in range(a0, len(fty)):
+                                if fty[j] == '(':
+                                    depth += 1
+                                elif fty[j] == ')':
+                                    depth -= 1
+                                    if depth == 0:
+                                        b0 = j
+                                        break
+                            ptypes = _split_top(fty[a0 + 1:b0]) if b0 > a0 else None
                     for i, a in enumerate(ks[1:]):
                         if ptypes is not None and i < len(ptypes):
                             pt = ptypes[i].strip()
